@@ -56,7 +56,7 @@ def generate(seed, tier):
     ops = []
     for _ in range(g.int(1, 2)):
         path = '/data/local/tmp/' + g.pick(['p', 'ü', 'a,b', 'x' * g.int(1, 200), 'y' * g.pick([900, 1000])]) + str(g.int(0, 999))
-        mode = g.pick([0o100644, 0o100777, 33272, 0o100600])
+        mode = g.pick([0o100644, 0o100777, 33272, 0o100600, 0o644, 0, 0o120777, 0o104755])      # also modes whose type bits are not S_IFREG: sent as given
         kind = g.pick(['bytesio', 'bytesio', 'file', 'file', 'dir'])
         op = {'op': 'push', 'src': kind, 'path': path, 'mode': mode, 'mtime': g.pick([0, 0, 1, 65535, 65536, 1234567890, 0xFFFFFFFF]), 'cb': g.pick([None, None, 'count', 'raise', 'raise_base'])}
         if g.chance(0.2):
